@@ -68,7 +68,7 @@ Section C01.
   Proof. exact (fresh_is_function_of_environ P parse_qs parse_cookie parse_cc ser_cc cc_empty cc_obs detect_charset). Qed.
 
   (* the documented per-object memory: once used, the charset of a wrapper never changes, whatever is written *)
-  Theorem C01_charset_sticky : forall ops s w cs,
+  Theorem C01_charset_sticky : forall ops, Forall (fun o => o <> OCopyEnv P CCOP) ops -> forall s w cs,
     nth w (wcs s) None = Some cs ->
     nth w (wcs (run ops s)) None = Some cs /\ obsA GCharset w (run ops s) = VStr cs.
   Proof. exact (charset_sticky P CCOP parse_qs urlencode parse_cookie valid_name cookie_edit parse_cc ser_cc cc_empty
@@ -131,12 +131,24 @@ Section C01.
 
   (* a write through any CacheControl handle lands in HTTP_CACHE_CONTROL, and the cached object is dropped *)
   Theorem C01_write_lands_cache_control : forall s id m o p' ret,
-    Inv s -> nth_error (ccs s) id = Some o -> cc_apply m (cc_props P o) = (Some p', ret) ->
+    Inv s -> nth_error (ccs s) id = Some o -> cc_bound P o = true -> cc_apply m (cc_props P o) = (Some p', ret) ->
     let s' := snd (cc_mut P CCOP ser_cc cc_apply repaired id m s) in
     env_get K_CC (env s') = Some (EStr (ser_cc p')) /\
     env_get K_CCCACHE (env s') = Some (ECCCache None) /\
     obsF GCC s' = cc_obs (parse_cc (ser_cc p')).
   Proof. exact (cc_mut_lands P CCOP parse_qs parse_cookie parse_cc ser_cc cc_empty cc_apply cc_obs detect_charset). Qed.
+  (* a further wrapper over a COPY of the environ (Request(dict(environ)), copy(), copy_get()): [OCopyEnv] is one of the
+     operations of a history, so C01_cache_inv and C01_coherent hold across it; and the view fetched over the copy is
+     bound to the copy whatever the copied cache tuple says -- a write through it lands in the copy's own environ *)
+  Theorem C01_copy_independent : forall s m, Inv s ->
+    let s1 := copy_env P s in
+    let id := fst (get_CC P parse_cc ser_cc cc_empty repaired s1) in
+    let s2 := snd (get_CC P parse_cc ser_cc cc_empty repaired s1) in
+    exists o, nth_error (ccs s2) id = Some o /\ cc_bound P o = true /\
+              cc_props P o = parse_cc (src K_CC (env s)) /\
+              forall p' ret, cc_apply m (cc_props P o) = (Some p', ret) ->
+                env_get K_CC (env (snd (cc_mut P CCOP ser_cc cc_apply repaired id m s2))) = Some (EStr (ser_cc p')).
+  Proof. exact (copy_independent P CCOP parse_qs parse_cookie parse_cc ser_cc cc_empty cc_apply cc_obs detect_charset). Qed.
 End C01.
 
 (* header names are case-insensitive — for all strings, not only latin-1 *)
@@ -163,6 +175,14 @@ Theorem C01_pinned_assigned_object_refuted :
   exists ops, Forall (wf_op str str) ops /\
     i_obsA pinned GCC 0 (i_run pinned ops (init str blank_env)) <> i_obsF pinned GCC (i_run pinned ops (init str blank_env)).
 Proof. exact pinned_refuted_2. Qed.
+
+(* /repo before fixes/C01-4: the view fetched over a copied environ is the original's object (history replayed on the
+   implementation by the harness) *)
+Theorem C01_copied_environ_reuses_object_refuted :
+  exists ops, Forall (wf_op str str) ops /\
+    i_obsA before_copy_fix GCC 0 (i_run before_copy_fix ops (init str blank_env))
+    <> i_obsF before_copy_fix GCC (i_run before_copy_fix ops (init str blank_env)).
+Proof. exact before_copy_fix_refuted. Qed.
 
 (* the hypotheses are satisfiable: a query codec with a proved round trip, and an initial environ *)
 Example C01_hypotheses_satisfiable :
@@ -191,3 +211,5 @@ Print Assumptions C01_header_name_ci.
 Print Assumptions C01_header_key_roundtrip.
 Print Assumptions C01_pinned_stale_after_update_refuted.
 Print Assumptions C01_pinned_assigned_object_refuted.
+Print Assumptions C01_copy_independent.
+Print Assumptions C01_copied_environ_reuses_object_refuted.
